@@ -38,7 +38,8 @@ GENERATORS = ['sets_leave_one_out_pattern', 'sets_leave_one_out_rdm', 'sets_k_fo
               'sets_k_fold_pattern', 'sets_of_k_rdm', 'sets_of_k_pattern', 'sets_random']
 REQUIRED = ['check:' + g for g in GENERATORS] + ['check:theta_ignores_test_data',
                                                  'check:score_ignores_train_only_data', 'check:fitter_sees_only_training',
-                                                 'folds_checked', 'shuffles_observed', 'inputs_with_bootstrap_copies']
+                                                 'folds_checked', 'shuffles_observed', 'inputs_with_bootstrap_copies',
+                                                 'inputs_with_bootstrap_copies_grouped_by_index']
 REACH = GENERATORS + ['crossval', 'RDMs.subset', 'RDMs.subsample', 'RDMs.subset_pattern', 'fit_regress']
 FAIL_KEYS = ['generator', 'what', 'k', 'fitter', 'dimension', 'scheme']
 TIME_BUDGET = {'quick': 80, 'thorough': 800}
@@ -76,17 +77,26 @@ def values_ok(obj, meta):
 def make_input(ctx):
     rng = ctx.rng
     src, meta = make_source(rng)
+    # which descriptor the library is told to group by, and which one the checker trusts as ground truth: either the
+    # user descriptors grp/pgrp, or the library-managed default 'index' (singleton groups; bootstrap copies must keep
+    # their index value -- ground truth is then the uid carried by every RDM / condition)
+    if rng.integers(3) == 0:
+        meta.update(rdesc='index', pdesc='index', rtruth='uid', ptruth='puid', by_index=True)
+    else:
+        meta.update(rdesc='grp', pdesc='pgrp', rtruth='grp', ptruth='pgrp', by_index=False)
     boot = bool(rng.integers(2))
     obj = src
     if boot:
         # bootstrap copies: duplicate rdm groups and pattern groups (operations verified by C09)
-        rg = sorted(set(meta['rgrp']), key=str)
-        pg = sorted(set(meta['pgrp']), key=str)
+        rg = sorted(set(groups_of(src, meta['rdesc'], 'rdm')), key=str)
+        pg = sorted(set(groups_of(src, meta['pdesc'], 'pattern')), key=str)
         rsel = [rg[int(i)] for i in rng.integers(0, len(rg), size=len(rg))]
         psel = [pg[int(i)] for i in rng.integers(0, len(pg), size=len(pg))]
         if len(set(map(str, psel))) >= 2 and len(set(map(str, rsel))) >= 1:
-            obj = src.subsample('grp', rsel).subsample_pattern('pgrp', psel)
+            obj = src.subsample(meta['rdesc'], rsel).subsample_pattern(meta['pdesc'], psel)
             ctx.count('inputs_with_bootstrap_copies')
+            if meta['by_index']:
+                ctx.count('inputs_with_bootstrap_copies_grouped_by_index')
         else:
             boot = False
     return obj, meta, boot
@@ -101,10 +111,10 @@ def check_fold(ctx, gname, sig, obj, meta, train, test, ceil, split_rdm, split_p
         if err:
             ctx.fail(gname, dict(sig, what='object_content'), f'{name} object: {err}', wit())
             return False
-    src_r = list(zip(uids_of(obj, 'rdm'), groups_of(obj, 'grp', 'rdm')))
-    src_p = list(zip(uids_of(obj, 'pattern'), groups_of(obj, 'pgrp', 'pattern')))
-    g_tr_r, g_te_r = set(groups_of(tr, 'grp', 'rdm')), set(groups_of(te, 'grp', 'rdm'))
-    g_tr_p, g_te_p = set(groups_of(tr, 'pgrp', 'pattern')), set(groups_of(te, 'pgrp', 'pattern'))
+    src_r = list(zip(uids_of(obj, 'rdm'), groups_of(obj, meta['rtruth'], 'rdm')))
+    src_p = list(zip(uids_of(obj, 'pattern'), groups_of(obj, meta['ptruth'], 'pattern')))
+    g_tr_r, g_te_r = set(groups_of(tr, meta['rtruth'], 'rdm')), set(groups_of(te, meta['rtruth'], 'rdm'))
+    g_tr_p, g_te_p = set(groups_of(tr, meta['ptruth'], 'pattern')), set(groups_of(te, meta['ptruth'], 'pattern'))
     if split_rdm and (g_tr_r & g_te_r):
         ctx.fail(gname, dict(sig, what='rdm_groups_overlap', dimension='rdm'), f'rdm groups '
                  f'{sorted(map(str, g_tr_r & g_te_r))} are in both the training and the test set', wit())
@@ -130,9 +140,9 @@ def check_fold(ctx, gname, sig, obj, meta, train, test, ceil, split_rdm, split_p
     if split_pat or gname in ('sets_k_fold_pattern', 'sets_leave_one_out_pattern', 'sets_of_k_pattern',
                               'sets_k_fold', 'sets_random'):
         for name, o, adv in (('train', tr, train[1]), ('test', te, test[1])):
-            if set(ref._key(v) for v in adv) != set(groups_of(o, 'pgrp', 'pattern')):
+            if set(ref._key(v) for v in adv) != set(groups_of(o, meta['pdesc'], 'pattern')):
                 ctx.fail(gname, dict(sig, what='advertised_patterns'), f'{name} advertises pattern groups '
-                         f'{list(map(str, adv))} but holds {sorted(map(str, set(groups_of(o, "pgrp", "pattern"))))}', wit())
+                         f'{list(map(str, adv))} but holds {sorted(map(str, set(groups_of(o, meta["pdesc"], "pattern"))))}', wit())
                 return False
     # ceil set = training RDMs at the test conditions
     if ceil is not None:
@@ -148,15 +158,15 @@ def check_fold(ctx, gname, sig, obj, meta, train, test, ceil, split_rdm, split_p
     return True
 
 
-def check_exhaustive(ctx, gname, sig, obj, tests, k_r, k_p, wit):
+def check_exhaustive(ctx, gname, sig, obj, meta, tests, k_r, k_p, wit):
     """every group in exactly one test fold along its dimension; fold sizes differ by at most one"""
-    all_r = set(groups_of(obj, 'grp', 'rdm'))
-    all_p = set(groups_of(obj, 'pgrp', 'pattern'))
+    all_r = set(groups_of(obj, meta['rtruth'], 'rdm'))
+    all_p = set(groups_of(obj, meta['ptruth'], 'pattern'))
     cnt_r, cnt_p = {}, {}
     sizes_r, sizes_p = [], []
     for te in tests:
-        gr = set(groups_of(te[0], 'grp', 'rdm'))
-        gp = set(groups_of(te[0], 'pgrp', 'pattern'))
+        gr = set(groups_of(te[0], meta['rtruth'], 'rdm'))
+        gp = set(groups_of(te[0], meta['ptruth'], 'pattern'))
         sizes_r.append(len(gr))
         sizes_p.append(len(gp))
         for g in gr:
@@ -188,12 +198,13 @@ def check_exhaustive(ctx, gname, sig, obj, tests, k_r, k_p, wit):
 def run_generator(ctx, tap, gname):
     rng = ctx.rng
     obj, meta, boot = make_input(ctx)
-    n_rg = len(set(groups_of(obj, 'grp', 'rdm')))
-    n_pg = len(set(groups_of(obj, 'pgrp', 'pattern')))
+    n_rg = len(set(groups_of(obj, meta['rtruth'], 'rdm')))
+    n_pg = len(set(groups_of(obj, meta['ptruth'], 'pattern')))
     random = bool(rng.integers(2))
     sig = dict(generator=gname, rdm_grouping=meta['rgk'], pattern_grouping=meta['pgk'], labels=meta['lk'],
-               boot=boot, random=random)
-    wit0 = dict(generator=gname, rdm_groups=groups_of(obj, 'grp', 'rdm'), pattern_groups=groups_of(obj, 'pgrp', 'pattern'),
+               boot=boot, random=random, by_index=meta['by_index'])
+    wit0 = dict(generator=gname, rdm_groups=groups_of(obj, meta['rtruth'], 'rdm'), pattern_groups=groups_of(obj, meta['ptruth'], 'pattern'),
+                grouped_by=meta['rdesc'],
                 rdm_uids=uids_of(obj, 'rdm'), cond_uids=uids_of(obj, 'pattern'))
     np.random.seed(int(rng.integers(2 ** 31)))
     tap.take()
@@ -202,40 +213,40 @@ def run_generator(ctx, tap, gname):
     if gname == 'sets_leave_one_out_pattern':
         if n_pg < 2:
             return
-        call = lambda: CS.sets_leave_one_out_pattern(obj, 'pgrp')  # noqa: E731
+        call = lambda: CS.sets_leave_one_out_pattern(obj, meta['pdesc'])  # noqa: E731
         k_p = n_pg
     elif gname == 'sets_leave_one_out_rdm':
         if n_rg < 2:
             return
-        call = lambda: CS.sets_leave_one_out_rdm(obj, 'grp')  # noqa: E731
+        call = lambda: CS.sets_leave_one_out_rdm(obj, meta['rdesc'])  # noqa: E731
         k_r = n_rg
     elif gname == 'sets_k_fold':
         k_r = int(rng.integers(1, n_rg + 1))
         k_p = int(rng.integers(1, n_pg + 1))
         call = lambda: CS.sets_k_fold(obj, k_rdm=k_r, k_pattern=k_p, random=random,  # noqa: E731
-                                      pattern_descriptor='pgrp', rdm_descriptor='grp')
+                                      pattern_descriptor=meta['pdesc'], rdm_descriptor=meta['rdesc'])
     elif gname == 'sets_k_fold_rdm':
         if n_rg < 2:
             return
         k_r = int(rng.integers(2, n_rg + 1))
-        call = lambda: CS.sets_k_fold_rdm(obj, k_rdm=k_r, random=random, rdm_descriptor='grp')  # noqa: E731
+        call = lambda: CS.sets_k_fold_rdm(obj, k_rdm=k_r, random=random, rdm_descriptor=meta['rdesc'])  # noqa: E731
     elif gname == 'sets_k_fold_pattern':
         k_p = int(rng.integers(1, n_pg + 1))
-        call = lambda: CS.sets_k_fold_pattern(obj, pattern_descriptor='pgrp', k=k_p, random=random)  # noqa: E731
+        call = lambda: CS.sets_k_fold_pattern(obj, pattern_descriptor=meta['pdesc'], k=k_p, random=random)  # noqa: E731
     elif gname == 'sets_of_k_rdm':
         if n_rg < 2:
             return
         size = int(rng.integers(1, n_rg // 2 + 1))
         k_r = int(n_rg / size)
         sig['group_size'] = size
-        call = lambda: CS.sets_of_k_rdm(obj, rdm_descriptor='grp', k=size, random=random)  # noqa: E731
+        call = lambda: CS.sets_of_k_rdm(obj, rdm_descriptor=meta['rdesc'], k=size, random=random)  # noqa: E731
     elif gname == 'sets_of_k_pattern':
         if n_pg < 2:
             return
         size = int(rng.integers(1, n_pg // 2 + 1))
         k_p = int(n_pg / size)
         sig['group_size'] = size
-        call = lambda: CS.sets_of_k_pattern(obj, pattern_descriptor='pgrp', k=size, random=random)  # noqa: E731
+        call = lambda: CS.sets_of_k_pattern(obj, pattern_descriptor=meta['pdesc'], k=size, random=random)  # noqa: E731
     else:  # sets_random
         n_r = int(rng.integers(0, n_rg))
         n_p = int(rng.integers(0, n_pg))
@@ -245,7 +256,7 @@ def run_generator(ctx, tap, gname):
         k_p = 2 if n_p > 0 else 1
         sig.update(n_rdm=n_r > 0, n_pattern=n_p > 0)
         call = lambda: CS.sets_random(obj, n_rdm=n_r, n_pattern=n_p, n_cv=n_cv,  # noqa: E731
-                                      pattern_descriptor='pgrp', rdm_descriptor='grp')
+                                      pattern_descriptor=meta['pdesc'], rdm_descriptor=meta['rdesc'])
     sig['k'] = f'{"1" if k_r == 1 else "k"}x{"1" if k_p == 1 else "k"}'
     wit = lambda **k: dict(wit0, k_rdm=k_r, k_pattern=k_p, random=random, **k)  # noqa: E731
     ok, out = ctx.guarded(gname, sig, call, data=wit)
@@ -278,7 +289,7 @@ def run_generator(ctx, tap, gname):
                           lambda **k: wit(fold=i, **k)):
             return
     if exhaustive:
-        check_exhaustive(ctx, gname, sig, obj, test_set, k_r, k_p, wit)
+        check_exhaustive(ctx, gname, sig, obj, meta, test_set, k_r, k_p, wit)
     # every shuffle outcome is a permutation of the groups it shuffled
     for e in ev:
         if e['fn'] == 'shuffle' and sorted(map(str, e['before'])) != sorted(map(str, e['after'])):
